@@ -191,6 +191,7 @@ func config(sc vlib.Scenario, tier string) vsched.Config {
 }
 
 type world struct {
+	liveBeforeClosing bool
 	optCloseErr    error
 	optCloseDur    time.Duration
 	optAcksAtClose int
@@ -478,6 +479,7 @@ func (w *world) connMain() {
 			}
 		}
 	}
+	w.liveBeforeClosing = w.B.Live() != nil // (the oracle must not look at the broker's view after the harness closed everything)
 	w.Phase = "closing"
 	for _, u := range w.Ups {
 		xctx, xcancel := kit.Ctx(8 * time.Second)
@@ -543,7 +545,7 @@ func (w *world) connOracle(res *vsched.Result, v *vlib.Verdict) {
 	// reliable stream: everything accepted reaches the broker (unless reported closed); not disturbed by the others
 	// (the stream whose resume the broker never answers and which the application then closes is the
 	// disturbed one, not the bystander: its Close fails and its unresumed points are not owed)
-	if !kit.ReportedClosed(w.Ups[0].Closed) && w.B.Live() != nil && res.Outcome == vsched.Completed && w.p.Refuse != "unanswered:upR" {
+	if !kit.ReportedClosed(w.Ups[0].Closed) && w.liveBeforeClosing && res.Outcome == vsched.Completed && w.p.Refuse != "unanswered:upR" {
 		have := map[string]bool{}
 		for _, c := range w.B.Ups[0].Chunks {
 			for _, p := range c.Points {
@@ -561,7 +563,7 @@ func (w *world) connOracle(res *vsched.Result, v *vlib.Verdict) {
 		}
 	}
 	// closing one stream leaves the others working
-	if res.Outcome == vsched.Completed && w.afterOpen != "" && w.afterOpen != "nil" && w.B.Live() != nil {
+	if res.Outcome == vsched.Completed && w.afterOpen != "" && w.afterOpen != "nil" && w.liveBeforeClosing {
 		v.Fail("C07.close-isolation", fmt.Sprintf("open-downstream-after/%s/cuts=%d/dev=%v", w.afterOpen, w.cuts, dev), "after the traffic phase (stray chunk and metadata for the first downstream, close of %s) a further downstream could not be opened: %s", w.p.Close, w.afterOpen)
 	}
 	if res.Outcome == vsched.Completed {
